@@ -1,5 +1,9 @@
 //! Correspondence / search engines for the Lean model of asonnino/hotstuff.
 //! usage: hsverif <engine> --prop Cxx --tier quick|thorough --seed N --out report.json [--replay file]
+#[path = "/repo/node/src/config.rs"]
+mod config;
+#[path = "/repo/node/src/node.rs"]
+mod node;
 mod driver;
 mod report;
 mod e1_codec;
@@ -10,6 +14,7 @@ mod e2_quorumwaiter;
 mod e2_sender;
 mod e2_store;
 mod e3_cons;
+mod e4_netsim;
 mod monitor;
 mod sexp;
 mod sym;
@@ -70,6 +75,7 @@ fn main() {
         "sender" => e2_sender::run(&o),
         "quorumwaiter" => e2_quorumwaiter::run(&o),
         "cons" => e3_cons::run(&o),
+        "netsim" => e4_netsim::run(&o),
         x => {
             eprintln!("unknown engine {}", x);
             std::process::exit(2);
